@@ -84,7 +84,6 @@ func init() {
 	for _, t := range topicsOsap {
 		declOrderTopics[t.name] = true
 	}
-	ptrNonNilTopics["OSAPParse"] = true
 	spTopics["OSAPParse"] = []spCallee{
 		// (*optSuffixArrayParser).computeEdges(): not translated (see the header); for Parse it is a parameter with the specification CESpec
 		{recv: "optSuffixArrayParser", name: "computeEdges"},
